@@ -482,6 +482,19 @@ func (s *Session) replayNative(spec HarnessSpec, file string, kind, msg string) 
 		}
 	}
 	if line == "" {
+		// a failed assertion in a goroutine other than the test's crashes the binary: the panic text tells which
+		for _, l := range strings.Split(text, "\n") {
+			if i := strings.Index(l, "panic: assert: "); i >= 0 {
+				line = "REPLAY-RESULT kind=assert msg=" + strings.TrimSuffix(strings.TrimSpace(l[i+len("panic: assert: "):]), " [recovered]")
+				break
+			}
+			if strings.HasPrefix(l, "fatal error: ") || (strings.HasPrefix(l, "panic: ") && !strings.Contains(l, "assume:")) {
+				line = "REPLAY-RESULT kind=panic msg=" + strings.TrimSpace(l)
+				break
+			}
+		}
+	}
+	if line == "" {
 		if strings.Contains(text, "panic: test timed out") {
 			line = "REPLAY-RESULT kind=timeout"
 		} else {
